@@ -10,6 +10,7 @@ import (
 	"io/ioutil"
 	"os"
 	"path/filepath"
+	"reflect"
 	"regexp"
 	"sync"
 	"time"
@@ -1115,7 +1116,11 @@ func (db *DB) Repair(of Object) (err error) {
 			continue
 		}
 
-		if o, err = db.getByUUID(of, uuid); err != nil {
+		// a new object must be used for every file otherwise fields not
+		// present in the file (omitempty) keep the value read from the
+		// previous file
+		fresh := reflect.New(typeof(of)).Interface().(Object)
+		if o, err = db.getByUUID(fresh, uuid); err != nil {
 			return
 		}
 
